@@ -27,7 +27,7 @@ theorem C13_listing_is_reach (db : Db) (hns : NoUnsetup db) (top : Prod) :
       ∀ v, v ∈ out.map (·.prod) ↔ (Listed db [] top v ∧ v ≠ top) := by
   obtain ⟨o, st, h⟩ := depsOf_some db hns [] db.fuel top 1 St.empty (fuel_enough db)
   have hl : listing db db.fuel [] top = some (o.filter (fun e => e.prod != top), st) := by simp [listing, h]
-  refine ⟨o.filter (fun e => e.prod != top), by simp [getDependentProducts, hl, tableMissing_false hns top], ?_⟩
+  refine ⟨o.filter (fun e => e.prod != top), by simp [getDependentProducts, finishListing, hl, tableMissing_false hns top], ?_⟩
   intro v
   rw [← depsOf_listed hns h v]
   simp only [List.mem_map, List.mem_filter, bne_iff_ne, ne_eq]
@@ -65,10 +65,6 @@ theorem C13_topological_partial (db : Db) (hns : NoUnsetup db) (fuel : Nat) (top
   have h1 := hord _ huk _ hs hnp
   have h2 := hlt _ huk
   exact ⟨_, _, hud, hvd, by omega⟩
-
-/-- `Distrib.createDependencies` installs in the order `dependencies.sort(key = -depth)` -/
-def buildOrder (out : List Entry) : List Entry :=
-  sortStable (fun a b => decide (b.depth.getD 0 ≤ a.depth.getD 0)) out
 
 theorem pairwise_insertS {β : Type} (le : β → β → Bool) (htot : ∀ a b, le a b = false → le b a = true)
     (htr : ∀ a b c, le a b = true → le b c = true → le a c = true) (x : β) :
@@ -245,7 +241,7 @@ theorem singleVersion_of_listing (db : Db) (hns : NoUnsetup db) (top : Prod) (ou
 
 section Examples
 private def s (x : String) : Str := Str.ofString x
-private def req (n : String) (v : Option String := none) : Dep := ⟨false, false, s n, v.map s, false⟩
+private def req (n : String) (v : Option String := none) : Dep := ⟨false, false, s n, v.map s, false, false⟩
 
 /-- a diamond `r → {a, b} → c`, `c` needing the undeclared `zz` -/
 def diamond : Db :=
@@ -287,8 +283,8 @@ theorem C13_topological_two_versions_witness :
 
 section PinnedExamples
 private def s' (x : String) : Str := Str.ofString x
-private def req' (n : String) (v : Option String := none) : Dep := ⟨false, false, s' n, v.map s', false⟩
-private def opt' (n : String) (v : Option String := none) : Dep := ⟨false, true, s' n, v.map s', false⟩
+private def req' (n : String) (v : Option String := none) : Dep := ⟨false, false, s' n, v.map s', false, false⟩
+private def opt' (n : String) (v : Option String := none) : Dep := ⟨false, true, s' n, v.map s', false, false⟩
 
 /-- corpus/C13/d18_placeholder_versions.json -/
 def d18 : Db :=
